@@ -1,7 +1,7 @@
 (* C03 -- unmount removes all of a layer's mounts, deepest first, and nothing else: the model's
    own step satisfies the property predicate.  Statements only. *)
 From LC Require Import Lib.Bytes Model.MountInfo Model.FsTree Model.Kernel Model.Layers
-  Proofs.KernelP Proofs.ForestP Proofs.C03P Proofs.C03AllP Cases.LC Cases.C03.
+  Proofs.KernelP Proofs.KernelInvP Proofs.ForestP Proofs.C03P Proofs.C03AllP Cases.LC Cases.C03.
 Import LC LCS.
 
 (* (a) umount with neither a layer nor -all fails, changes nothing, issues no call *)
@@ -70,3 +70,22 @@ Theorem C03_model_partial : forall cfg w e um n all, plain_env e = true -> C03Al
   C03.step_spec cfg w (view_of_model cfg w e (CUmount n all) um) = true.
 Proof. exact C03AllP.C03_model_proof. Qed.
 Print Assumptions C03_model_partial.
+
+(* the kernel well-formedness assumed above (unique mount ids; a line's parent id is never a
+   later line, and a later line naming k as parent lies at or under k) is an invariant of the
+   kernel model: kept by umount(2), and by every mount(2) that appends one line with a fresh id *)
+Theorem C03_kernel_inv_umount : forall ks t fl ks', kumount ks t fl = KOk ks' ->
+  KernelInvP.kinv (ks_tab ks) ->
+  KernelInvP.kinv (ks_tab ks') /\ (wf_table (ks_tab ks) = true -> wf_table (ks_tab ks') = true).
+Proof. exact KernelInvP.kumount_preserves. Qed.
+Print Assumptions C03_kernel_inv_umount.
+
+Theorem C03_kernel_inv_mount : forall fs ks src tgt fstype flags data ks',
+  kmount fs ks src tgt fstype flags data = KOk ks' ->
+  KernelInvP.kinv (ks_tab ks) ->
+  ~ In (dec (ks_nextid ks)) (kids (ks_tab ks)) -> ~ In (dec (ks_nextid ks)) (map k_parent (ks_tab ks)) ->
+  (covering (ks_tab ks) tgt = None -> ~ In (bs "1") (kids (ks_tab ks))) ->
+  (has_flag flags MS_REC = true -> filter (fun m => under src (k_mp m)) (ks_tab ks) = []) ->
+  KernelInvP.kinv (ks_tab ks').
+Proof. exact KernelInvP.kmount_preserves. Qed.
+Print Assumptions C03_kernel_inv_mount.
